@@ -17,6 +17,7 @@ import PintModel.Model.Rewrite
 import PintModel.Model.Wraps
 import PintModel.Model.Measure
 import PintModel.Model.Serial
+import PintModel.Model.Numpy
 import PintModel.Gen.DefaultRegistry
 
 open Lean
@@ -630,6 +631,36 @@ def stepSer (st : DriverState) (j : Json) : DriverState × Json :=
       | none => (st, badJ "ser cross: op"))
   | _ => (st, badJ "ser: f")
 
+
+/-! ### NumPy unit bookkeeping (C16) -/
+
+def jUOp? (s : String) (size : Option Rat) : Option Np.UOp :=
+  match s with
+  | "sum" => some .sum | "mul" => some .mul | "delta" => some .delta | "delta,div" => some .deltaDiv
+  | "div" => some .div | "invdiv" => some .invdiv | "variance" => some .variance | "square" => some .square
+  | "sqrt" => some .sqrt | "cbrt" => some .cbrt | "reciprocal" => some .reciprocal
+  | "size" => size.map .size
+  | _ => none
+
+def stepNp (st : DriverState) (j : Json) : DriverState × Json :=
+  let R0 := st.reg
+  match fStr j "f" with
+  | some "unit" =>
+    (match fStr j "uop", fUC j "first", field j "args" >>= jArr? with
+      | some o, some first, some a =>
+        let args : List (Option UC) := a.toList.map fun x => match x with | Json.null => none | _ => jUC? x
+        (match jUOp? o (fRat j "size") with
+          | some op =>
+            let R := args.foldl (fun R a => match a with | some u => registerKeys R u | none => R) (registerKeys R0 first)
+            (st, exceptJ (ucJ ·) (Np.outputUnit R {} op first args))
+          | none => (st, badJ "np unit: uop"))
+      | _, _, _ => (st, badJ "np unit: uop/first/args"))
+  | some "meaning" =>
+    (match fStr j "input", fStr j "output" with
+      | some i, some o => (st, okJ (Json.str (Np.meaning i o)))
+      | _, _ => (st, badJ "np meaning"))
+  | _ => (st, badJ "np: f")
+
 /-! ### registry queries (C01, C02, C08) -/
 
 def stepReg (st : DriverState) (op : String) (j : Json) : DriverState × Json :=
@@ -764,6 +795,7 @@ def step (st : DriverState) (j : Json) : DriverState × Json :=
   | some "wraps" => stepWraps st j
   | some "meas" => stepMeas st j
   | some "ser" => stepSer st j
+  | some "np" => stepNp st j
   | some op => stepReg st op j
 
 end Pint
